@@ -233,6 +233,7 @@ static void run_seq(std::istringstream& in) {
                 p = q + 1;
             }
             ++stepno;
+            if (!verdict.empty()) { out << "stop "; continue; }   // the property is already violated: do not run the history further (it would only crash)
             if (f.empty()) { out << "skip "; continue; }
             if (!M.apply(name, f)) { out << "skip "; continue; }
             std::string pbad;
